@@ -413,6 +413,16 @@ func (fk *c10Fake) write(c *websocket.Conn, s string) {
 	c.WriteMessage(websocket.TextMessage, []byte(s))
 }
 
+// c10CloseTS closes a test server without waiting for ever for connections a wedged peer keeps open.
+func c10CloseTS(ts *httptest.Server) {
+	done := make(chan struct{})
+	go func() { ts.CloseClientConnections(); ts.Close(); close(done) }()
+	select {
+	case <-done:
+	case <-time.After(3 * time.Second):
+	}
+}
+
 type c10API struct {
 	Sub  func(ctx context.Context) (<-chan int, error)
 	Live func(ctx context.Context) (int, error)
@@ -423,7 +433,7 @@ func c10ClientRow(rng *rand.Rand, frames []interface{}) map[string]interface{} {
 	obs := map[string]interface{}{"alive": true, "probeSame": false, "probeFresh": false, "cancelled": false, "delivered": false, "closed": false, "completed": false}
 	fk := &c10Fake{conns: make(chan *websocket.Conn, 4), liveReq: make(chan string, 4)}
 	ts := httptest.NewServer(fk)
-	defer ts.Close()
+	defer c10CloseTS(ts)
 	var api c10API
 	ctx, cancel := context.WithCancel(context.Background())
 	defer cancel()
@@ -432,7 +442,17 @@ func c10ClientRow(rng *rand.Rand, frames []interface{}) map[string]interface{} {
 		obs["note"] = "client: " + err.Error()
 		return obs
 	}
-	defer closer()
+	defer func() {
+		// a wedged client (its connection goroutine stuck) must not wedge the harness; it is reported as not alive
+		done := make(chan struct{})
+		go func() { closer(); close(done) }()
+		select {
+		case <-done:
+		case <-time.After(3 * time.Second):
+			obs["alive"] = false
+			obs["note"] = fmt.Sprint(obs["note"], " client closer did not return within 3s")
+		}
+	}()
 	var sc *websocket.Conn
 	select {
 	case sc = <-fk.conns:
